@@ -1,8 +1,9 @@
 #!/bin/sh
-# regenerate zz_verif_rt.go in every harness package from rt.go.tmpl
+# regenerate zz_verif_rt.go / zz_verif_replay_test.go in every harness package
 cd "$(dirname "$0")"
 for d in */; do
   p=${d%/}
-  [ -f "$p/PKGNAME" ] && n=$(cat "$p/PKGNAME") || n=$(basename "$p")
+  n=$(basename "$p")
   sed "s/^package PKG$/package $n/" rt.go.tmpl > "$p/zz_verif_rt.go"
+  sed "s/^package PKG$/package $n/" replay_test.go.tmpl > "$p/zz_verif_replay_test.go"
 done
